@@ -55,7 +55,7 @@ inline std::string describe_seq(const SeqProg &p) {
     return d.s;
 }
 
-struct SeqStats { unsigned parked_served = 0, blocked = 0, unblocked = 0, ops = 0; };
+struct SeqStats { unsigned parked_served = 0, blocked = 0, unblocked = 0, ops = 0, reentrant = 0; };
 
 template<int VT, bool BOUNDED>
 struct SeqRun {
@@ -80,6 +80,23 @@ struct SeqRun {
     int next_value = 1;
     unsigned limit = 0;
     SeqStats st;
+    // a hand-written awaiter registered on a kept pop / push future: its resume function runs INSIDE the queue operation that
+    // completes the future and looks at the queue again (documented to be possible: the queue unlocks before it resolves)
+    struct ReCb : cocls::awaiter {
+        SeqRun *r; int fired = 0; bool is_push; int idx;
+        ReCb(SeqRun *r_, bool p_, int i_) : r(r_), is_push(p_), idx(i_) { set_resume_fn(&fn); }
+        static cocls::suspend_point<void> fn(cocls::awaiter *me, void *) noexcept {
+            auto *c = static_cast<ReCb *>(me); c->fired++;
+            if (c->r->q && !c->r->destroying) { c->r->reentered += c->r->q->size() + (c->r->q->empty() ? 1 : 0); c->r->st.reentrant++; }
+            return {};
+        }
+    };
+    std::vector<std::unique_ptr<ReCb>> cbs; bool destroying = false; std::size_t reentered = 0;
+    template<class F> void watch(F &f, bool is_push, int idx) {
+        if (f.ready()) return;
+        cbs.emplace_back(new ReCb(this, is_push, idx));
+        if (!f.operator co_await().subscribe(cbs.back().get())) cbs.back()->fired++;
+    }
 
     cocls::async<void> consumer(int idx) {
         int code;
@@ -97,7 +114,7 @@ struct SeqRun {
         if (w.is_coro) consumer_expect[(size_t)w.idx] = v; else pop_expect[(size_t)w.idx] = v;
         st.parked_served++;
     }
-    void do_push() {
+    void do_push(bool watched = false) {
         int v = VT == 2 ? 0 : next_value++;
         int push_idx = -1;
         // odd values are pushed from a variable of the caller (an lvalue): the queue takes a copy, the variable stays intact
@@ -122,6 +139,7 @@ struct SeqRun {
         if (!waiting.empty()) { model_deliver(v); if (BOUNDED) push_expect.push_back(0); }
         else if (!BOUNDED || items.size() < limit) { items.push_back(v); if (BOUNDED) push_expect.push_back(0); }
         else { blocked.push_back({v, push_idx}); push_expect.push_back(-2); st.blocked++; }
+        if constexpr (BOUNDED) if (watched && push_idx >= 0) watch(*pushes[(size_t)push_idx], true, push_idx);
     }
     void model_pop(Waiter w) {
         if (items.empty()) { waiting.push_back(w); return; }
@@ -134,10 +152,11 @@ struct SeqRun {
             st.unblocked++;
         }
     }
-    void do_pop() {
+    void do_pop(bool watched = false) {
         int idx = (int)pops.size();
         pop_expect.push_back(-2);
         pops.emplace_back(new PopF(q->pop()));
+        if (watched) watch(*pops.back(), false, idx);
         model_pop({false, idx});
     }
     void do_consumer() {
@@ -174,6 +193,10 @@ struct SeqRun {
             int got = observe(*pushes[i]);
             HZ_CHECK(got == push_expect[i], "after %s: push #%zu future shows %d, model expects %d (0 completed, -2 pending, 1000+ exception)", after, i, got, push_expect[i]);
         }
+        for (auto &c : cbs) {
+            int want = c->is_push ? push_expect[(size_t)c->idx] : pop_expect[(size_t)c->idx];
+            HZ_CHECK(c->fired == (want != -2 ? 1 : 0), "after %s: the awaiter registered on %s #%d ran %d times, the model says that operation is %s", after, c->is_push ? "push" : "pop", c->idx, c->fired, want != -2 ? "complete" : "still pending");
+        }
         for (size_t i = 0; i < consumer_result.size(); i++)
             HZ_CHECK(consumer_result[i] == consumer_expect[i], "after %s: coroutine consumer #%zu received %d, model expects %d (-100 = still waiting)", after, i, consumer_result[i], consumer_expect[i]);
         if (q) {
@@ -186,8 +209,8 @@ struct SeqRun {
         if constexpr (BOUNDED) q.reset(new Q(p.limit)); else q.reset(new Q());
         for (auto &o : p.ops) {
             switch (o.code) {
-                case 0: case 1: case 2: case 9: do_push(); break;
-                case 3: case 4: do_pop(); break;
+                case 0: case 1: case 2: case 9: do_push((o.a & 0x80) != 0); break;
+                case 3: case 4: do_pop((o.a & 0x80) != 0); break;
                 case 5: if (BOUNDED) do_pop(); else do_unblock_pop(o.a % 8); break;
                 case 6: if (BOUNDED) do_unblock_push(o.a % 8); break;
                 case 7: do_consumer(); break;
@@ -201,6 +224,7 @@ struct SeqRun {
         waiting.clear();
         for (auto &b : blocked) push_expect[(size_t)b.push_idx] = -1;
         blocked.clear();
+        destroying = true;
         q.reset();
         compare("queue destruction");
     }
@@ -219,7 +243,7 @@ inline void run_seq_t(const SeqProg &p) {
     }
     hz::set_class((st.parked_served ? 1 : 0) | (st.blocked ? 2 : 0));
     hz::set_nontrivial(BOUNDED ? st.blocked > 0 : st.parked_served > 0);
-    hz::count(0, st.parked_served); hz::count(1, st.blocked); hz::count(2, st.unblocked);
+    hz::count(0, st.parked_served); hz::count(1, st.blocked); hz::count(2, st.unblocked); hz::count(3, st.reentrant);
 }
 
 inline void run_seq(const SeqProg &p) {
@@ -380,6 +404,6 @@ inline std::string describe(hz::Reader &r, bool bounded) {
 }
 
 static const char *const class_names[] = {"history:plain", "history:parked-pop-served", "history:push-blocked", "history:parked+blocked", "threads:no-lib-preempt", "threads:preempted-in-library"};
-static const char *const counter_names[] = {"parked_pops_served", "pushes_blocked", "pushes_unblocked_by_pop"};
+static const char *const counter_names[] = {"parked_pops_served", "pushes_blocked", "pushes_unblocked_by_pop", "completions_that_reentered_the_queue_from_inside_the_completing_operation"};
 
 } // namespace scen_queue
